@@ -469,6 +469,10 @@ func joinOperator(v interface{}, operator string) (string, error) {
 
 			return "", fmt.Errorf("operator cannot have 0 operands")
 		}
+		if len(arr) == 1 && operator != " != " {
+
+			return "", fmt.Errorf("operator%smust have at least 2 operands", operator)
+		}
 		ops := make([]string, len(arr))
 		for i := 0; i < len(arr); i++ {
 			ope, err := parseOperand(arr[i], false, operator == " != " && len(arr) == 1)
